@@ -1,4 +1,4 @@
-// @unit id=v_recv props=C03,C09,C13,C01,C06,C07,C08,C14,C15,C17,C18 tier=quick rlimit=60
+// @unit id=v_recv props=C03,C09,C13,C01,C04,C06,C07,C08,C14,C15,C17,C18 tier=quick rlimit=60
 // Verus contracts on the real bodies of src/proto/streams/recv.rs, extracted on every run.
 //   level (connection or stream) = (window, available, in_flight):  window = credit the peer still has,
 //   available = window + released-but-unannounced, in_flight = handed out and not released.
